@@ -1181,17 +1181,16 @@ _FDL_OS = ('ORACLE SOUNDNESS (Proofs/FdlOracleSound*.v): model_transcript = the 
            '(A new, then any API calls and polls; harness PHY buffer; views computed from the model state); hypotheses: builder-valid '
            'parameters, any number of total applications, poll times in range and strictly increasing, received bytes are bytes. ')
 PROPS["C01"]["level_note"] += (' ' + _FDL_OS + 'C01_oracle_sound: no rule of C01 of FdlOracle.monitor (tx_while_busy, sync_pause, who_may_transmit, '
-    'check_pass_before_slot, claim_before_timeout) is reported on a model transcript that does not pass through "state Offline with last_bus_activity '
-    'recorded" (reachable only by the self-re-creation after the second address collision with further telegrams in the buffer: two stations with '
-    'one address, outside the class of C01 - observation O9). The rules were adapted so that they do not fire in that corner either (an offline '
-    'station observes nothing; the claim reference survives the self-offline poll): C01_oracle_corner_accepted is a computed transcript of the corner '
-    'that the monitor accepts; 12000 fuzzed model histories x 800 polls (arbitrary bytes, busy flags, on/off) give no report.')
-PROPS["C01"]["partial_gap"] += (' Oracle soundness: the promptness monitor Model/FdlPrompt.v (P01_sync_pause_exceeded) is NOT covered; the proof of '
-    'C01_oracle_sound keeps the hypothesis no_stale (the O9 corner) although the adapted rules are quiet there.')
+    'check_pass_before_slot, claim_before_timeout) is reported on a model transcript, for ALL input histories - including the corner O9 (state Offline '
+    'with last_bus_activity recorded after the self-re-creation on the second address collision with further telegrams in the buffer: two stations with '
+    'one address, outside the class of C01). The rules were adapted to follow the code there (an offline station observes nothing; the claim reference '
+    'is re-based at the self-offline poll); C01_oracle_corner_accepted is a computed transcript of the corner that the monitor accepts; 12000 fuzzed '
+    'model histories x 800 polls (arbitrary bytes, busy flags, on/off) give no report of any rule.')
+PROPS["C01"]["partial_gap"] += (' Oracle soundness: the promptness monitor Model/FdlPrompt.v (P01_sync_pause_exceeded) is NOT covered.')
 PROPS["C05"]["level_note"] += (' ' + _FDL_OS + 'C05_oracle_sound: neither R05_panic nor R05_timeout is reported, for ALL input histories (set_passive ends '
     'the transcript with the excused panic).')
-PROPS["C06"]["level_note"] += (' ' + _FDL_OS + 'C06_oracle_sound_partial: R06_no_claim_after_timeout is never reported on a model transcript (outside the O9 '
-    'corner, see C01).')
+PROPS["C06"]["level_note"] += (' ' + _FDL_OS + 'C06_oracle_sound_partial: R06_no_claim_after_timeout is never reported on a model transcript (all input '
+    'histories, the O9 corner of C01 included).')
 PROPS["C06"]["partial_gap"] += ' Oracle soundness: R06_no_backoff is NOT yet covered.'
 PROPS["C13"]["level_note"] += (' ' + _FDL_OS + 'C13_oracle_sound: no rule of C13 (low_prio_after_hold_time in both forms, second_cycle_after_hold_time, '
     'high_prio_inside_hold_time) is reported, for ALL input histories and applications that hand data telegrams to the PHY (app_sends_data). The proof '
